@@ -50,3 +50,6 @@ Lemma src_ctor_ok :
   src_ctor_stores_arguments = true /\ src_default_fwhm = default_fwhm /\
   src_default_scale = default_scale /\ src_default_location = default_location.
 Proof. repeat split; reflexivity. Qed.
+
+Lemma src_purity_ok : src_window_not_cast = true /\ src_normsq_copies_points = true.
+Proof. split; reflexivity. Qed.
